@@ -404,3 +404,18 @@ Theorem C01_general_entry : forall (val : Type) (M : Mon) (pnamed strict : bool)
   obj_cond pnamed strict o [] kw = obj_cond_kw pnamed o kw.
 Proof. intros val M pnamed strict o kw. exact (obj_cond_keywords val M pnamed strict o kw). Qed.
 Print Assumptions C01_general_entry.
+
+(* OPEN FINDING Distribution._condition|keyword-names-attribute-and-variable -- scope of every theorem above
+   w.r.t. the code as it stands: the model's binding (a keyword reaches the callables that take it and
+   the None attribute of that name) is the code's behaviour exactly when no OTHER attribute carries the
+   name of a conditioning variable (slots_attrs_own); the usual  scale = lambda scale: 1/scale  and the
+   None attributes satisfy it, an attribute `cov` holding a value or a callable of another variable while
+   a variable `cov` enters through the mean does not (the code then overwrites that attribute:
+   witness replayed by the harness on every run; with fixes/C01_condition_attribute_collision.diff
+   the guard is not needed).  Non-vacuity / tightness of the guard as a decision procedure: *)
+Example C01_attrs_own_examples :
+  slots_attrs_own [SFn [5]; SFixed] [5; 100] = true /\          (* scale = lambda scale: ...           *)
+  slots_attrs_own [SUnset 5; SFn [6]] [5; 101] = true /\        (* mean = None named after its variable *)
+  slots_attrs_own [SFn [5]; SFn [6]] [100; 5] = false /\        (* attribute 5 holds a callable of 6    *)
+  slots_attrs_own [SFn [5]; SFixed] [100; 5] = false.           (* attribute 5 holds a plain value      *)
+Proof. repeat split; reflexivity. Qed.
